@@ -57,6 +57,8 @@ def run_property(prop: str, tier: str, seed: int, evidence_dir=None, quiet=False
             # dictionary between two operators breaks them; for the format translators (C17) sharing is outside what the property states
             from .rules.sharing import check_terms_copied
             check_terms_copied(idx, rep, files)
+        from .rules.defaults import check_explicit_arguments
+        rep.stats["optional_argument_defaults"] = check_explicit_arguments(idx, rep, files)
         from .rules.elementwise import check_elementwise
         check_elementwise(idx, rep, files)
         from .rules.protocols import check_protocols
